@@ -159,7 +159,7 @@ func (w *World) autoCall(r int, cc grpc.ClientConnInterface, p *autoPlan, rng *r
 		w.logf("ret who=cx%d op=cancel res=ok", r)
 		cancel()
 	}
-	var hdrT, trlT metadata.MD
+	hdrT, trlT := metadata.Pairs("stale-target", "h"), metadata.Pairs("stale-target", "t")
 	name := fmt.Sprintf("/v.S/%s%d", p.shape, r)
 	w.logf("newcall r=%d t=0 shape=%s method=%s md=- credmd=- to=none multi=0", r, p.shape, encStr(name))
 	w.logf("call who=cw%d op=new", r)
